@@ -165,6 +165,64 @@ def oracle(ctx, seeds=None):
         res.stats['order_' + name] = round(float(obs), 2)
         if obs < p - 0.3:
             res.fail(name + ':order', "observed temporal order %.2f < %d (errors %r)" % (obs, p, errs), dict(kind='order'))
+    # ---- systems (neq > 1) with a per-cell time-step array: the unknowns are ordered cell by cell with the equation index
+    #      fastest, and every equation of cell i is advanced with the time step of cell i:
+    #      (diag(1/dt_cell(i)) - theta J) dQ = R   with J, R the implementation's own Jacobian and residual
+    for i in range(ctx.n(10, 120)):
+        model = str(rng.choice(['euler', 'sw']))
+        cfg = cfg1d.rand_config(rng, model=model, n=int(rng.integers(2, 6)), smooth=True, per=True, units=False,
+                                scheme=cfg1d.rand_scheme(rng, ['extrapol1', 'extrapol2']), flux='hlle' if model == 'euler' else 'hll')
+        ok, b_ = impl.guarded(cfg1d.build, cfg)
+        if not ok:
+            continue
+        mod, msh, disc, f = b_
+        cfl = float(rng.choice([0.5, 2.0, 8.0]))
+        local = bool(i % 4 != 3)
+        def run():
+            dtv = np.asarray(disc.calc_timestep(f, cfl), dtype=float) * np.ones(cfg['n'])
+            if not local:
+                dtv = np.full(cfg['n'], float(np.min(dtv)))
+            out = {}
+            for name, th in (('implicit', 1.0), ('cranknicolson', 0.5)):
+                sref = getattr(impl.integ, name)(msh, disc)
+                J = np.array(sref.calc_jacobian(f.copy()), dtype=float).copy()
+                R = [np.array(x, dtype=float).copy() for x in disc.rhs(f.copy())]
+                g = f.copy()
+                getattr(impl.integ, name)(msh, disc).step(g, dtv.copy() if local else float(dtv[0]))
+                out[name] = (J, R, [np.array(x, dtype=float).copy() for x in g.data], th)
+            return dtv, out
+        ok, out = impl.guarded(run)
+        res.case(('system-local-dt', model, local, cfg['scheme'][0]))
+        rp = dict(cfg=cfg, cfl=cfl, kind='system-local-dt', local=local)
+        if not ok and 'Singular matrix' in str(out):
+            res.count('skipped-singular-implicit-system'); continue
+        if not ok:
+            res.fail('system-local-dt:raised', out, rp); continue
+        dtv, o = out
+        neq, n = mod.neq, cfg['n']
+        for name, (J, R, Q1, th) in o.items():
+            D = np.diag(np.repeat(1.0 / dtv, neq))            # equation index fastest: cell i occupies rows i*neq .. i*neq+neq-1
+            rhsv = np.zeros(neq * n)
+            for q_ in range(neq):
+                rhsv[q_::neq] = R[q_]
+            M = D - th * J
+            if not (np.all(np.isfinite(M)) and np.all(np.isfinite(rhsv)) and all(np.all(np.isfinite(x)) for x in Q1)):
+                res.count('skipped-inadmissible'); continue        # extrapolated face states outside the admissible set
+            cnd = np.linalg.cond(M)
+            if not np.isfinite(cnd) or cnd > 1e10:
+                res.count('skipped-ill-conditioned'); continue
+            dQ = np.linalg.solve(M, rhsv)
+            bad = None
+            for q_ in range(neq):
+                exp = np.asarray(f.data[q_], dtype=float) + dQ[q_::neq]
+                sc = float(np.max(np.abs(f.data[q_]))) + float(np.max(np.abs(dQ[q_::neq]))) + 1e-300
+                if not np.max(np.abs(Q1[q_] - exp)) <= 1e-9 * max(cnd, 1.0) * sc:
+                    bad = (q_, float(np.max(np.abs(Q1[q_] - exp))) / sc)
+            if bad:
+                res.fail('%s:system-%s-dt' % (name, 'local' if local else 'global'),
+                         "one %s step of a %s problem with %s differs from (diag(1/dt_cell) - theta J)^-1 R built from the implementation's own J and R: equation %d, relative %r" %
+                         (name, model, 'a per-cell time-step array' if local else 'one time step', bad[0], bad[1]), rp)
+                break
     # ---- Jacobian on nonlinear problems vs central differences
     for i in range(ctx.n(16, 200)):
         model = str(rng.choice(['burgers', 'euler', 'sw']))
